@@ -298,6 +298,81 @@ Theorem C02_failure_surfaces_in_every_mode :
 Proof. exact failure_surfaces_in_every_mode. Qed.
 Print Assumptions C02_failure_surfaces_in_every_mode.
 
+(* ---------- the Response API in detail (round 2) ---------- *)
+
+(* auto-read of a clean body: the cache holds the body (through the response-body transformer
+   when one is installed), Body is a fresh reader over the cache, no error *)
+Theorem C02_auto_read_caches : forall tf code d b,
+  (199 < code)%Z -> view tf d = Some b ->
+  finish (auto_cfg tf) code {| rd_rem := d; rd_end := BEof |} =
+    {| a_state := {| s_err := false; s_cache := Some b; s_body := mem_reader b |};
+       a_out := []; a_callbacks := []; a_unmarshal := None |}.
+Proof. exact auto_read_caches. Qed.
+Print Assumptions C02_auto_read_caches.
+
+Theorem C02_transformer_failure_surfaces : forall f code d,
+  (199 < code)%Z -> f d = None ->
+  let r := finish (auto_cfg (Some f)) code {| rd_rem := d; rd_end := BEof |} in
+  s_err (a_state r) = true /\ s_cache (a_state r) = None.
+Proof. exact transformer_failure_surfaces. Qed.
+Print Assumptions C02_transformer_failure_surfaces.
+
+(* once cached: for ANY sequence of Bytes / String / ToBytes / ToString / UnmarshalJson / Read
+   loops (any buffer sizes), any number of times, every view is the cached bytes - also the
+   bytes handed to the unmarshaller - and the Read loops return a prefix of what Body held *)
+Theorem C02_cached_ops_stable : forall tf ops s b,
+  s_err s = false -> s_cache s = Some b ->
+  Forall (op_sees b) (run_ops tf ops s) /\
+  exists t, rd_rem (s_body s) = reads_of (run_ops tf ops s) ++ t.
+Proof. exact cached_ops_stable. Qed.
+Print Assumptions C02_cached_ops_stable.
+
+(* the restored Body delivers the body exactly once; ToBytes still returns it afterwards *)
+Theorem C02_restored_body_read_once : forall tf b sizes1 sizes2,
+  positive_sizes sizes1 -> length b < length sizes1 -> sizes2 <> [] ->
+  run_ops tf [OpRead sizes1; OpRead sizes2; OpToBytes]
+    {| s_err := false; s_cache := Some b; s_body := mem_reader b |} =
+  [OutRead b (Some BEof); OutRead [] (Some BEof); OutToBytes b true].
+Proof. exact restored_body_read_once. Qed.
+Print Assumptions C02_restored_body_read_once.
+
+(* DisableAutoReadResponse, manual reads of any length, then ToBytes: the body, exactly once *)
+Theorem C02_manual_reads_then_tobytes : forall d sizes,
+  exists d1 e d2,
+    run_ops None [OpRead sizes; OpToBytes]
+      {| s_err := false; s_cache := None; s_body := {| rd_rem := d; rd_end := BEof |} |} =
+    [OutRead d1 e; OutToBytes d2 true] /\ d1 ++ d2 = d.
+Proof. exact manual_reads_then_tobytes. Qed.
+Print Assumptions C02_manual_reads_then_tobytes.
+
+(* SetOutput / SetOutputFile with a writer that may fail after accepting some bytes: the writer
+   gets a prefix; no error reported => it got ALL of the body; a writer that cannot take
+   everything fails the call; the download callback reports the full size *)
+Theorem C02_download_no_silent_truncation : forall code d cap cb,
+  let r := finish (save_cfg cap cb) code {| rd_rem := d; rd_end := BEof |} in
+  (exists t, d = a_out r ++ t) /\
+  (s_err (a_state r) = false -> a_out r = d) /\
+  (match cap with Some n => n < length d | None => False end -> s_err (a_state r) = true) /\
+  (cap = None -> cb = true -> d <> [] -> a_callbacks r = [length d]) /\
+  s_cache (a_state r) = None.
+Proof. exact download_no_silent_truncation. Qed.
+Print Assumptions C02_download_no_silent_truncation.
+
+Theorem C02_download_source_failure_surfaces : forall code d cb,
+  s_err (a_state (finish (save_cfg None cb) code {| rd_rem := d; rd_end := BFail |})) = true.
+Proof. exact download_source_failure_surfaces. Qed.
+Print Assumptions C02_download_source_failure_surfaces.
+
+(* SetSuccessResult + SetOutput: the unmarshaller and the writer both get the body *)
+Theorem C02_result_then_download : forall code d,
+  success_state code = true -> code <> 204%Z ->
+  let c := {| c_disable_auto := false; c_save := true; c_cap := None; c_callback := false;
+              c_result := true; c_tf := None |} in
+  let r := finish c code {| rd_rem := d; rd_end := BEof |} in
+  a_unmarshal r = Some d /\ a_out r = d /\ s_cache (a_state r) = Some d /\ s_err (a_state r) = false.
+Proof. exact result_then_download. Qed.
+Print Assumptions C02_result_then_download.
+
 Example C02_nonvacuous :
   let fs := [ {| wf_name := bs "set-cookie"; wf_pre := bs " "; wf_value := bs "a=1"; wf_post := [] |};
               {| wf_name := bs "X-Empty"; wf_pre := []; wf_value := []; wf_post := bs "  " |};
